@@ -47,8 +47,8 @@ Attached(h) == LET A[x \in Writers] == IF x = 0 THEN TRUE ELSE IF nodes[x].par =
 \* a section() inside a directive restarts at indent 0: what lies below a section is outside C20's statement
 BelowSection(h) == LET B[x \in Writers] == IF x = 0 THEN FALSE ELSE IF nodes[x].k = "sect" THEN TRUE ELSE IF nodes[x].par = -1 THEN FALSE ELSE B[nodes[x].par] IN B[h]
 
-SeqOfSet(S) ==  \* ascending order
-  LET F[T \in SUBSET S] == IF T = {} THEN <<>> ELSE LET m == CHOOSE x \in T : \A y \in T : x <= y IN <<m>> \o F[T \ {m}] IN F[S]
+SeqOfSet(S) ==  \* ascending order; S is always a set of node indices
+  SelectSeq([j \in 1..Len(nodes) |-> j], LAMBDA x : x \in S)
 Flatten(ss) == LET F[j \in 0..Len(ss)] == IF j = 0 THEN <<>> ELSE F[j-1] \o ss[j] IN F[Len(ss)]
 
 \* ---- serialisation, element by element, as the code does it
